@@ -93,7 +93,27 @@ pub fn j_render(toks: &[char], seps: &[usize], c: i128, ts: TimeScale, leap: &Le
                 out.dc(2); // contains %y: rendering not pinned; the call returned
                 return;
             }
-            if got == want {
+            // %w is not pinned by the statement: the C89 number of either the TAI weekday (Epoch::weekday(), today's
+            // behaviour) or of the weekday of the printed date is accepted
+            let want_alt = if toks.contains(&'w') {
+                let (y, m, d, _, _, _, _) = text::fields(c, ts);
+                let own = format!("{}", (weekday1900(days1900(y, m, d)) + 1) % 7);
+                let mut w2 = String::new();
+                for (i, t) in toks.iter().enumerate() {
+                    if *t == 'w' {
+                        w2.push_str(&own);
+                    } else {
+                        w2.push_str(&piece(*t, c, ts, leap, &e).unwrap_or_default());
+                    }
+                    if i + 1 < toks.len() {
+                        w2.push_str(&sep_string(seps[i]));
+                    }
+                }
+                Some(w2)
+            } else {
+                None
+            };
+            if got == want || Some(&got) == want_alt.as_ref() {
                 let nt = toks.len() > 1;
                 out.ok(2, nt, toks.iter().fold(0u64, |a, t| a.wrapping_mul(17).wrapping_add(TOKENS.iter().position(|x| x == t).unwrap() as u64)) % 4096);
                 if out.want_sample(nt) {
